@@ -144,6 +144,87 @@ theorem neg_not_self {p : Program} {edb M : DB} {fuel' : Nat} (hpm : pmEval fuel
   rw [heq] at this
   exact Nat.lt_irrefl _ this
 
+/-- one direction of uniqueness: `F1 ≤ F2` on the heads of the order, when both are least-closed
+    head by head and the heads already seen agree. -/
+theorem least_le (p : Program) (hagg : ∀ r, r ∈ p → r.hasAgg = false) (F1 F2 : String → List Tuple)
+    (hnon : ∀ g, g ∉ heads p → F1 g = F2 g) :
+    ∀ (order seen : List String), depOrderedS p order seen = true →
+      (∀ g, g ∈ order → LeastFor p F1 g) → (∀ g, g ∈ order → LeastFor p F2 g) →
+      (∀ g, g ∈ seen → MemEq (F1 g) (F2 g)) →
+      ∀ h, h ∈ order → MemEq (F1 h) (F2 h)
+  | [], _, _, _, _, _, h, hh => by cases hh
+  | g :: rest, seen, hd, h1, h2, hseen, h, hh => by
+    have hd' := hd
+    simp only [depOrderedS, Bool.and_eq_true, Bool.not_eq_true', List.all_eq_true, Bool.or_eq_true, beq_iff_eq] at hd'
+    obtain ⟨⟨hsc, _⟩, hdrest⟩ := hd'
+    have hfirst : MemEq (F1 g) (F2 g) := by
+      -- for any X, the two overrides agree on what g scans
+      have hag : ∀ X, AgreeOn (scansOf p g) (override F1 g X) (override F2 g X) := by
+        intro X r hr
+        unfold override
+        by_cases hrg : r = g
+        · have : (r == g) = true := by simpa using hrg
+          simp [this]; exact MemEq.refl _
+        · have hb : (r == g) = false := by simpa using hrg
+          simp only [hb, Bool.false_eq_true, if_false]
+          rcases hsc r hr with (hnh | hs) | he
+          · have : r ∉ heads p := fun hc => by rw [List.contains_iff_mem.2 hc] at hnh; cases hnh
+            rw [hnon r this]; exact MemEq.refl _
+          · exact hseen r (List.contains_iff_mem.1 hs)
+          · exact absurd he hrg
+      have ov_self : ∀ (F : String → List Tuple), AgreeOn (scansOf p g) (override F g (F g)) F := by
+        intro F r _
+        unfold override
+        by_cases hrg : r = g
+        · have : (r == g) = true := by simpa using hrg
+          simp [this, hrg]; exact MemEq.refl _
+        · have hb : (r == g) = false := by simpa using hrg
+          simp [hb]; exact MemEq.refl _
+      -- F1 g ⊆ F2 g : F2 g is closed for F1's operator
+      have dir : ∀ (Fa Fb : String → List Tuple), (∀ X, AgreeOn (scansOf p g) (override Fa g X) (override Fb g X)) →
+          LeastFor p Fa g → LeastFor p Fb g → Sub (Fa g) (Fb g) := by
+        intro Fa Fb hab la lb
+        obtain ⟨d, hd2, hsub2⟩ := lb.1
+        have c1 := evalRules_memEq (p := p) (h := g) hagg (hab (Fb g))
+        have c2 := evalRules_memEq (p := p) (h := g) hagg (ov_self Fb)
+        rw [hd2] at c2
+        cases he : evalRules (override Fb g (Fb g)) (clausesOf p g) with
+        | none => rw [he] at c2; cases c2
+        | some d' =>
+          rw [he] at c1 c2
+          cases he1 : evalRules (override Fa g (Fb g)) (clausesOf p g) with
+          | none => rw [he1] at c1; cases c1
+          | some dX =>
+            rw [he1] at c1
+            exact la.2 (Fb g) dX he1 (fun t ht => hsub2 t ((c2 t).1 ((c1 t).1 ht)))
+      exact memEq_of_sub (dir F1 F2 hag (h1 g (List.mem_cons_self ..)) (h2 g (List.mem_cons_self ..)))
+        (dir F2 F1 (fun X r hr => (hag X r hr).symm) (h2 g (List.mem_cons_self ..)) (h1 g (List.mem_cons_self ..)))
+    rcases List.mem_cons.1 hh with rfl | hh'
+    · exact hfirst
+    · apply least_le p hagg F1 F2 hnon rest (g :: seen) hdrest
+        (fun x hx => h1 x (List.mem_cons_of_mem _ hx)) (fun x hx => h2 x (List.mem_cons_of_mem _ hx)) _ h hh'
+      intro x hx
+      rcases List.mem_cons.1 hx with rfl | hx
+      · exact hfirst
+      · exact hseen x hx
+
+/-- `LeastFor` only depends on the *set* of rules. -/
+theorem leastFor_sameRules {p p' : Program} (hs : sameRules p p') (F : String → List Tuple) (g : String)
+    (h : LeastFor p' F g) : LeastFor p F g := by
+  constructor
+  · obtain ⟨d, hd, hsub⟩ := h.1
+    have := sameRules_evalRules hs F g
+    rw [hd] at this
+    cases he : evalRules F (clausesOf p g) with
+    | none => rw [he] at this; cases this
+    | some d' => rw [he] at this; exact ⟨d', rfl, fun t ht => hsub t ((this t).1 ht)⟩
+  · intro X dX hX hXs
+    have := sameRules_evalRules hs (override F g X) g
+    rw [hX] at this
+    cases he : evalRules (override F g X) (clausesOf p' g) with
+    | none => rw [he] at this; cases this
+    | some d' => rw [he] at this; exact h.2 X d' he (fun t ht => hXs t ((this t).2 ht))
+
 /-- Decidable description of the fragment with self-recursion: the execution order the code chooses
     lists every head after the *other* heads it scans (a head may scan itself), exactly the heads
     are executed, heads have no stored facts, no aggregates, the last executed head is the head of
